@@ -23,9 +23,10 @@ X, Y = V("x"), V("y")
 A0 = Sub(V("arr"), C(0))
 AX = Sub(V("arr"), X)
 OA = Look(V("obj"), "a")
+OX = Look(V("obj"), "x")        # attribute named like a substituted variable
 
 FILL = dict(gen.DEFAULT_FILL)
-FILL["e"] = [X, AX, Y, OA, C(2), A0]
+FILL["e"] = [X, AX, Y, OA, OX, C(2), A0]
 FILL["b"] = FILL["e"]
 
 BOX = (-1, 2, Fraction(1, 2))
@@ -261,11 +262,12 @@ class C08(Check):
     pid = "C08"
     level = "exploration"
     rule = ("bounded-exhaustive: every evaluable constructor shape with every combination of the "
-            "leaves {x, y, arr[0], arr[x], obj.a, 2} (depth2) and every (parent, position, child) "
+            "leaves {x, y, arr[0], arr[x], obj.a, obj.x, 2} (depth2) and every (parent, position, child) "
             "nesting, x every substitution map with 1-2 keys over {x, y as name / Variable, arr[0], "
             "arr[x], obj.a as nodes} and values {y, x, x+1, 2, y*arr[0], obj.a, arr[x]} (swaps and "
             "values mentioning other keys included; quick: 4 keys x 4 values) x 5 entry forms, on "
-            "the box {-1, 2, 1/2}^vars. Non-trivial = the tree contains at least one key; distinct "
+            "the box {-1, 2, 1/2}^vars; plus all length-2 histories of substitute() calls (4 trees x 4 "
+            "keyword forms) that share ONE caller dict, which must come back unchanged. Non-trivial = the tree contains at least one key; distinct "
             "= distinct (tree, map) pairs.")
     assumptions = [
         "for maps with only variable keys the oracle is the statement's own formulation (original "
@@ -277,12 +279,12 @@ class C08(Check):
     chunk = 4
 
     def families(self, tier):
-        leaves = [X, Y, A0, AX, OA, C(2)]
+        leaves = [X, Y, A0, AX, OA, OX, C(2)]
         sigmas = self.sigmas(tier)
         ctors2 = [c for c in EVAL_CTORS if len(c.slots) <= 2] if tier == "quick" else EVAL_CTORS
 
         def d2():
-            for s in gen.depth2(ctors2, leaves[:4] if tier == "quick" else leaves):
+            for s in gen.depth2(ctors2, [X, Y, AX, OX] if tier == "quick" else leaves):
                 yield ("ts", s)
 
         def n2():
@@ -290,7 +292,45 @@ class C08(Check):
                 yield ("ts", s)
 
         self._sigmas = sigmas
-        return [("depth2", d2), ("nest2", n2)]
+        return [("depth2", d2), ("nest2", n2), ("shared-dict", self.gen_shared_dict)]
+
+    # -- histories of calls that share one assignment dict ---------------------------------------
+    HTREES = [Sum(X, Y), Prod(X, AX), ("Call", V("f"), ("tuple", Y, OX)), Sum(OA, X)]
+    HCALLS = [(), (("x", Y),), (("y", Sum(X, C(1))),), (("x", C(2)), ("y", X))]
+
+    def gen_shared_dict(self):
+        dicts = [(), (("name", "x"), C(3)), ((("name", "y"), X),)]
+        for d in ((), ((("name", "x"), C(3)),), ((("name", "y"), X),)):
+            for hist in itertools.product(range(len(self.HTREES) * len(self.HCALLS)), repeat=2):
+                yield ("shared", d, hist)
+        del dicts
+
+    def check_shared(self, r, d0, hist):
+        from pymbolic.mapper.substitutor import substitute
+        shared = {key: build(v) for (_, key), v in d0}
+        snapshot = dict(shared)
+        for step, op in enumerate(hist):
+            ti, ci = divmod(op, len(self.HCALLS))
+            spec = self.HTREES[ti]
+            kw = {k: build(v) for k, v in self.HCALLS[ci]}
+            r.evals += 1
+            got = substitute(build(spec), shared, **kw)
+            sigma = tuple([*d0, *[(("name", k), v) for k, v in self.HCALLS[ci]
+                                  if k not in dict((kk[1], 0) for kk, _ in d0)]])
+            # keyword assignments override the dict's
+            merged = {kk[1]: v for kk, v in d0}
+            merged.update(dict(self.HCALLS[ci]))
+            want = ref_subst(spec, tuple((("name", k), v) for k, v in merged.items()))
+            del sigma
+            if sort_maps(to_spec(got)) != sort_maps(want):
+                return ("shared-dict:result", step,
+                        f"call {step} substitute({show(spec)}, d, **{ {k: show(v) for k, v in self.HCALLS[ci]} }) "
+                        f"returned {show(to_spec(got))}, expected {show(want)}")
+            if shared != snapshot or list(shared) != list(snapshot):
+                return ("shared-dict:caller-dict-mutated", step,
+                        f"after call {step} the caller's dict is {sorted(shared)} "
+                        f"(was {sorted(snapshot)})")
+        return None
 
     def sigmas(self, tier):
         if tier == "quick":
@@ -299,6 +339,18 @@ class C08(Check):
 
     def check_item(self, family, item, tier):
         r = Res()
+        if item[0] == "shared":
+            d0 = tuple((tuple(k), v) for k, v in item[1])
+            f = self.check_shared(r, d0, tuple(item[2]))
+            r.keys.append(item)
+            r.count("histories")
+            if f:
+                hist = tuple(item[2])[:f[1] + 1]
+                calls = ";".join(f"{show(self.HTREES[op // len(self.HCALLS)])}"
+                                 f"{[k for k, _ in self.HCALLS[op % len(self.HCALLS)]]}"
+                                 for op in hist)
+                r.fail(f[0], f"{f[0]}|{calls}", f[2], witness=("shared", item[1], hist))
+            return r
         spec = item[1]
         if item[0] == "one":                      # replay of a single (tree, map) pair
             sigmas = [tuple((tuple(k) if k[0] != "node" else ("node", k[1]), v) for k, v in item[2])]
